@@ -394,7 +394,7 @@ PROPERTIES = {
     "C12": {
         "level": "proof",
         "claim": "Per-arm contracts, verified by Verus on the arms of VM::run sliced verbatim from src/vm.rs for stacks / frame stacks of EVERY size: Call binds arguments by position in a fresh activation whose other slots are null and leaves everything below the base untouched; Return/ReturnValue hand back exactly the caller's stack plus the result and restore the caller's ip/bp. Function descriptors round-trip for all (u32,u16) (Kani).",
-        "note": "Trusted: Verus/Z3; helper contracts read_u8/pop (proved by Kani on the real methods, bounded code/stack size), extraction rules R1,R2,R3,R4,R7,R10. The compiler's call-site arm (arguments left to right, then the callee, argc == count) is proved too (unit c12_callsite). The Expr::Function arm (unit c02_blocks) proves the body is jumped over, always ends in a return instruction, runs in a fresh context and that the descriptor's entry point is the body's first byte. The number of slots a call reserves is the context size the symbol table reports (every declaration counts: O05.sym; leave_context hands out that number: unit c09_names). NOT decided: the composition over whole programs (recursion depth, nested calls) - argued from the arm contracts, not verified.",
+        "note": "Trusted: Verus/Z3; helper contracts read_u8/pop (proved by Kani on the real methods, bounded code/stack size), extraction rules R1,R2,R3,R4,R7,R10. The compiler's call-site arm (arguments left to right, then the callee, argc == count) is proved too (unit c12_callsite). The Expr::Function arm (unit c02_blocks) proves the body is jumped over, always ends in a return instruction, runs in a fresh context, that the descriptor's entry point is the body's first byte, and (O12.rec) that a named function defined at top level is declared before its body is compiled: inside the body its name resolves to exactly the slot the definition stores the function in (recursion). The number of slots a call reserves is the context size the symbol table reports (every declaration counts: O05.sym; leave_context hands out that number: unit c09_names). NOT decided: the composition over whole programs (recursion depth, nested calls) - argued from the arm contracts, not verified.",
         "design_ref": "DESIGN.md 3.6",
         "undecided": ["composition of arm contracts over all call sequences (step lemma)"],
         "assumptions": ["arm preconditions (operands on the stack, operand bytes inside the code) hold at every step: the compile-side half of C02"],
